@@ -2147,6 +2147,7 @@ func runFarm(run *ev.Run, c int, mode string) {
 	}
 	endgame := blocks - 24
 	for b := 0; b < blocks; b++ {
+		restartFromOwnExport(run, r, c, b, blocks)
 		v := g.view()
 		allInfos := v.s.Farmers
 		// random unstakes keep away from the pools the endgame needs populated
